@@ -278,7 +278,9 @@ theorem inv_dial (c : Cfg) (hc : c.Ok) (s s' : State) (h : Inv c s) (i : Nat)
       exact (h.peer_started (by omega) hjt'.1 this).1
     split at hs
     · omega
-    · split at hs
+    · rename_i hk255
+      rw [helloId_of_le k hk255] at hs
+      split at hs
       · rename_i e; exact absurd e.2 (hjph e.1)
       · simp only [hnone, Option.some.injEq] at hs
         subst hs
